@@ -263,8 +263,145 @@ fn fixed_cases() -> Vec<Case> {
     out
 }
 
+// ---- aborted uploads against the real server (options travel through the listener: tsize, blksize, windowsize) ----
+
+#[derive(Clone, Debug, Serialize, Deserialize)]
+pub struct AbortCase {
+    pub single: bool,
+    pub keep: bool,
+    pub with_tsize: bool,
+    pub blk: u32,
+    pub ws: u16,
+    pub len: usize,
+    /// blocks sent before the abort
+    pub after: usize,
+    /// true = the client sends ERROR; false = it falls silent (the server gives up after 6 timeouts of 1 s)
+    pub by_error: bool,
+}
+
+fn run_abort(dir: &Path, c: &AbortCase) -> Result<Vec<&'static str>, (String, String)> {
+    let root = dir.join("c13a");
+    let _ = std::fs::remove_dir_all(&root);
+    let recv = root.join("recv");
+    std::fs::create_dir_all(&recv).unwrap();
+    let mut args = vec![wire::s("-d"), recv.to_string_lossy().to_string()];
+    if c.single {
+        args.push(wire::s("-s"));
+    }
+    if c.keep {
+        args.push(wire::s("--keep-on-error"));
+    }
+    let mut srv = match Server::start(&args, &root) {
+        Ok(s) => s,
+        Err(StartError::Exited(code, e)) => return Err(("harness".into(), format!("tftpd exited at start-up with {}: {}", code, e))),
+        Err(StartError::Harness(e)) => return Err(("harness".into(), e)),
+    };
+    let data = content(13, c.len);
+    let mut opts = vec![("timeout".to_string(), "1".to_string()), ("blksize".to_string(), c.blk.to_string()), ("windowsize".to_string(), c.ws.to_string())];
+    if c.with_tsize {
+        opts.push(("tsize".to_string(), c.len.to_string()));
+    }
+    let cl = Client::new();
+    let neg = match wclient::start(&cl, srv.addr, true, "a.bin", &opts, Duration::from_secs(3)) {
+        Start::Accepted { neg, .. } => neg,
+        other => return Err(("harness".into(), format!("upload not accepted: {:?}", other))),
+    };
+    let nb = data.len() / neg.blk + 1;
+    let k = c.after.min(nb - 1);
+    // whole windows only, so that everything sent is acknowledged (and therefore flushed)
+    let k = k - k % neg.ws;
+    let mut srcs = vec![];
+    let mut sent = 0usize;
+    while sent < k {
+        for b in (sent + 1)..=(sent + neg.ws) {
+            let s0 = (b - 1) * neg.blk;
+            cl.send(&crate::refcodec::data(b as u16, &data[s0..s0 + neg.blk]), neg.peer);
+        }
+        sent += neg.ws;
+        match cl.recv(Duration::from_secs(3)) {
+            Some((b, f)) if crate::refcodec::decode(&b) == crate::refcodec::RDec::Ok(crate::refcodec::RPacket::Ack(sent as u16)) => srcs.push(f),
+            other => return Err(("harness".into(), format!("no ACK {} during the prefix: {:?}", sent, other.map(|(b, _)| hex(&b))))),
+        }
+    }
+    if c.by_error {
+        cl.send(&crate::refcodec::error(0, "client aborts"), neg.peer);
+        std::thread::sleep(Duration::from_millis(150));
+    } else {
+        std::thread::sleep(Duration::from_millis(7600));
+    }
+    let on_disk = std::fs::read(recv.join("a.bin")).ok();
+    let status = srv.exit_status();
+    let tail = srv.stderr_tail();
+    drop(srv);
+    let _ = std::fs::remove_dir_all(&root);
+    if let Some(st) = status {
+        return Err(("server-terminated".into(), format!("tftpd exited ({}): {}", st, tail)));
+    }
+    let sent_bytes = k * neg.blk;
+    match (c.keep, on_disk) {
+        (false, None) => Ok(vec!["wire-abort-cleaned"]),
+        (false, Some(f)) => Err(("partial-file-not-removed".into(), format!("the upload was aborted after {} blocks ({}) with clean-on-error in force but a file of {} bytes remains; stderr: {}", k, if c.by_error { "peer ERROR" } else { "silence" }, f.len(), tail))),
+        (true, None) => Err(("kept-file-removed".into(), format!("the upload was aborted after {} blocks with --keep-on-error but the file is gone", k))),
+        (true, Some(f)) => {
+            if f.len() <= data.len() && f == data[..f.len()] && f.len() >= sent_bytes {
+                Ok(vec!["wire-abort-kept-prefix"])
+            } else {
+                Err(("kept-file-not-a-prefix".into(), format!("the upload was aborted after {} acknowledged blocks ({} bytes) with --keep-on-error; the kept file has {} bytes and is {}a prefix of the {} bytes the client would have sent (tsize option {})", k, sent_bytes, f.len(), if f.len() <= data.len() && f == data[..f.len()] { "" } else { "not " }, data.len(), c.with_tsize)))
+            }
+        }
+    }
+}
+
+pub fn judge_abort(dir: &Path, c: &AbortCase, obs: &mut Obs) -> Judge {
+    obs.class(if c.keep { "wire-abort-keep" } else { "wire-abort-clean" });
+    obs.class_if(c.with_tsize, "wire-abort-with-tsize");
+    obs.nontrivial = true;
+    let r = match run_abort(dir, c) {
+        Err((sig, d)) if sig != "harness" => match run_abort(dir, c) {
+            Ok(k) => {
+                obs.inconclusive = Some(format!("failed once ({}: {}), passed on the isolated re-run", sig, d));
+                Ok(k)
+            }
+            other => other,
+        },
+        other => other,
+    };
+    match r {
+        Ok(k) => {
+            for x in k {
+                obs.class(x);
+            }
+            Ok(())
+        }
+        Err((sig, d)) if sig == "harness" => {
+            obs.inconclusive = Some(d);
+            Ok(())
+        }
+        Err((sig, d)) => viol!(format!("wire-{}", sig), "{} | {:?}", d, c),
+    }
+}
+
+fn abort_cases(thorough: bool) -> Vec<AbortCase> {
+    let mut out = vec![];
+    for single in [false, true] {
+        for keep in [false, true] {
+            for with_tsize in [false, true] {
+                for (blk, ws, len, after) in [(512u32, 1u16, 3000usize, 0usize), (512, 1, 3000, 2), (64, 2, 1000, 4), (1024, 3, 9000, 3)] {
+                    out.push(AbortCase { single, keep, with_tsize, blk, ws, len, after, by_error: true });
+                }
+                if thorough || (single && with_tsize) {
+                    out.push(AbortCase { single, keep, with_tsize, blk: 512, ws: 1, len: 3000, after: 2, by_error: false });
+                }
+            }
+        }
+    }
+    out
+}
+
 pub fn run_wire(ctx: &Ctx) {
     let dirs = DirPool::new(ctx, "c13w");
+    let aborts = abort_cases(ctx.tier == Tier::Thorough);
+    enumerate(ctx, "wire-aborted-uploads", &aborts, false, |c, o| dirs.with(|d| judge_abort(d, c, o)));
     let fixed = fixed_cases();
     enumerate(ctx, "wire-duplicate-wrq-grid", &fixed, false, |c, o| dirs.with(|d| judge(d, c, o)));
     explore_n(ctx, "wire-duplicate-wrq", ctx.tier.pick(32, 1200), shards(), 6, strategy, |c: &Case, o| dirs.with(|d| judge(d, c, o)));
@@ -274,6 +411,7 @@ pub fn replay(ctx: &Ctx, part: &str, case: &Value) -> bool {
     let dirs = DirPool::new(ctx, "c13w");
     match part {
         "wire-duplicate-wrq" | "wire-duplicate-wrq-grid" => replay_one(ctx, part, case, |c: &Case, o| dirs.with(|d| judge(d, c, o))),
+        "wire-aborted-uploads" => replay_one(ctx, part, case, |c: &AbortCase, o| dirs.with(|d| judge_abort(d, c, o))),
         _ => {
             ctx.say(&format!("unknown part {}", part));
             std::process::exit(2)
